@@ -486,6 +486,35 @@ class IfGoalGen:
             out.append(("forall", vs, ("if", hs, ("atom", (kind, u.name, uargs)))))
         return out
 
+    def conj_goals(self, n):
+        """[(vs, hs, g1, g2)] for `forall<vs> { if (hs) { g1 }, g2 }`: g2 sits OUTSIDE the `if` and is
+        something the hypotheses would give (the hypothesis itself, one of its consequences, or
+        its negation when it is closed); the oracle evaluates it without them."""
+        out = []
+        unary = [t for t in self.p.traits if t.nextra == 0]
+        for _ in range(n):
+            closed = self.rng.random() < 0.35
+            vs = () if closed else (1,)
+            subj = self.rng.choice(self.consts) if closed else var(1)
+            t = self.rng.choice(self.p.traits)
+            h = ("impl", t.name, tuple([subj] + [self.ty(vs, 0) for _ in range(t.nextra)]))
+            hs = ((h, ()),)
+            if self.bounded and self.rng.random() < 0.25:
+                a = self.rng.choice(self.bounded)
+                hs = ((("fety", adt(a.name, *[subj for _ in range(a.nparams)])), ()),)
+            r = self.rng.random()
+            if r < 0.4 or not unary:
+                g2 = ("atom", h)
+            elif r < 0.8:
+                g2 = ("atom", ("impl", self.rng.choice(unary).name, (subj,)))
+            else:
+                g2 = ("atom", ("fe",) + tuple(h[1:]))
+            if closed and self.rng.random() < 0.4:
+                g2 = ("not", g2)
+            g1 = self.concl(vs, 0) if vs else ("atom", ("impl", self.rng.choice(unary or self.p.traits).name, (subj,))) if unary else ("atom", h)
+            out.append((vs, hs, g1, g2))
+        return out
+
     def sweep2(self):
         """for one trait WITH parameters: hypothesis `X1: T<X2..>` over distinct variables and, as
         conclusions, the same trait with every arrangement of those variables (and one constant),
@@ -621,6 +650,19 @@ def gen_wf_program(rng):
         stronger = rng.choice([t for t in unary if bound.name in closure_names(t.name)])
         p.adts.append(EAdt("C", 1, [impl_atom(stronger.name, var(0))], [adt("B", var(0)), var(0)]))
         muts.append(("where-clause of struct C", lambda q: setattr(q.adt("C"), "wcs", [])))
+    # repeated field / where-clause types BEFORE the one that lacks its bound
+    muts.append(("struct whose bounded field type follows a repeated field type",
+                 lambda q: q.adts.append(EAdt("R", 1, [], [adt("W", var(0)), adt("W", var(0)), adt("B", var(0))]))))
+    muts.append(("struct whose bounded field type follows a type repeated in a where-clause",
+                 lambda q: q.adts.append(EAdt("R", 1, [impl_atom(unary[0].name, adt("W", var(0)))], [adt("W", var(0)), adt("B", var(0))]))))
+    muts.append(("impl whose bounded where-clause type follows a repeated where-clause type",
+                 lambda q: q.impls.append(pg.Impl(1, (unary[0].name, (adt("W", adt("W", adt("W", var(0)))),)),
+                                                  [(unary[0].name, (adt("W", var(0)),)), (unary[0].name, (adt("W", var(0)),)),
+                                                   (unary[0].name, (adt("B", var(0)),))]))))
+    muts = muts + muts[-3:]
+    if rng.random() < 0.3:
+        # the sound counterpart: the bound is declared
+        p.adts.append(EAdt("RS", 1, [impl_atom(bound.name, var(0))], [adt("W", var(0)), adt("W", var(0)), adt("B", var(0))]))
     ok_consts = [c for c in ("S0", "S1", "S2") if (bound.name, (adt(c),)) in closed]
     if ok_consts and rng.random() < 0.4:
         p.adts.append(EAdt("D", 0, [], [adt("B", adt(rng.choice(ok_consts)))]))
@@ -694,6 +736,15 @@ def corpus_c06():
                           ("atom", ("impl", "Tr4", (var(1),)))))
     g1 = ("forall", (1,), ("if", ((("impl", "Tr1", (var(1), adt("S0"))), ()),), ("atom", ("impl", "Tr4", (var(1),)))))
     out.append((p, [g, g1]))
+    # hypotheses must not reach a later (or earlier) conjunct: if (X: Foo) { W<X>: Bar }, X: Foo
+    p = EProg(_consts(2) + [EAdt("W", 1, [], [var(0)])], [ETrait("Foo"), ETrait("Bar")],
+              [pg.Impl(1, ("Bar", (adt("W", var(0)),)), [("Foo", (var(0),))]), pg.Impl(0, ("Foo", (adt("S1"),)))], "corpus-conj")
+    hx = ((("impl", "Foo", (var(1),)), ()),)
+    h0 = ((("impl", "Foo", (adt("S0"),)), ()),)
+    out.append((p, [("conj", (1,), hx, ("atom", ("impl", "Bar", (adt("W", var(1)),))), ("atom", ("impl", "Foo", (var(1),)))),
+                    ("conj", (), h0, ("atom", ("impl", "Bar", (adt("W", adt("S0")),))), ("atom", ("impl", "Foo", (adt("S0"),)))),
+                    ("conj", (), h0, ("atom", ("impl", "Bar", (adt("W", adt("S0")),))), ("not", ("atom", ("impl", "Foo", (adt("S0"),))))),
+                    ("conj", (), h0, ("atom", ("impl", "Bar", (adt("W", adt("S0")),))), ("atom", ("impl", "Foo", (adt("S1"),))))]))
     # a where-clause naming the trait itself with swapped arguments: trait Conv<P0> where P0: Conv<Self>
     p = EProg(_consts(2), [ETrait("Conv", 1, [impl_atom("Conv", var(1), var(0))]),
                            ETrait("Sym", 2, [impl_atom("Sym", var(0), var(2), var(1))])], [], "corpus-selfref")
@@ -732,4 +783,12 @@ def corpus_c21():
     a, t = base()
     out.append((EProg(a + [EAdt("Ok", 0, [], []), EAdt("Holder", 1, [], [adt("Set", adt("Ok")), var(0)])], t,
                       [pg.Impl(0, ("Hash", (adt("Ok"),)))], "corpus-closed-field"), {"missing": None}))
+    # a repeated field type before the field that lacks its bound (and the sound counterpart)
+    for wcs, missing in (([], "bound of a field type that follows a repeated field type"), ([impl_atom("Hash", var(0))], None)):
+        a, t = base()
+        a += [EAdt("Vec", 1, [], []), EAdt("MyType", 1, wcs, [adt("Vec", var(0)), adt("Vec", var(0)), adt("Set", var(0))])]
+        out.append((EProg(a, t, [], "corpus-repeated-field"), {"missing": missing}))
+    a, t = base()
+    a += [EAdt("Vec", 1, [], []), EAdt("MyType2", 1, [], [adt("Vec", adt("Vec", var(0))), adt("Vec", var(0)), adt("Set", var(0))])]
+    out.append((EProg(a, t, [], "corpus-repeated-field"), {"missing": "bound of a field type that follows a type repeated inside another field"}))
     return out
